@@ -24,6 +24,12 @@
 //!                      `SuspenseContext`) reads the value synchronously (`get_untracked()` in the reader's owner)
 //!   attach s           a new reader under the boundary awaits the value (`ScopedFuture` in its owner, like a `Suspend`)
 //!   bdrop              every reader under the boundary is disposed (owner cleanup; the awaiting futures are dropped)
+//!   attach h           a task takes the value by reference and KEEPS the guard across a further await:
+//!                      `let g = d.by_ref().await; record(*g); release.await; drop(g)`
+//!   hold               the harness itself takes a `read_untracked()` guard and keeps it
+//!   release            every guard is given back (the harness drops its own, every holder's release is sent)
+//!   cfg kind `k~chain`: the handle under test is obtained from the constructed one by conversions: `a` = `.into()` the
+//!                      `Arc…` type, `r` = `.into()` the arena type, `c` = `.clone()` (e.g. `local-arc~r`, `res~ar`, `arena~ac`)
 //!   a 6th cfg field (plain kinds, `sig` only) gives the fetcher's reads as `<body>/<pre>/<post>`, each `-` or a
 //!        `.`-separated list of `R<i>` (read source i), `C<i>` (read source i only if source 0, as read earlier in
 //!        this run, was non-zero), `X` (read source 1 + flag % (k-1)): body = in the closure before the async block,
@@ -98,6 +104,9 @@ struct Shared {
     aw: Vec<Option<u32>>,
     /// awaiters under the boundary whose reader was disposed before they resumed
     aw_aborted: Vec<bool>,
+    /// read guards on the value held by holder tasks right now; the release channel of every holder
+    holder_guards: usize,
+    releases: Vec<Option<oneshot::Sender<()>>>,
     elog: Vec<(Option<u32>, Option<u32>)>,
     /// number of ops applied so far
     clock: usize,
@@ -395,6 +404,64 @@ impl Dv {
             Dv::OR(d) => d.ready().now_or_never().is_none(),
         }
     }
+    /// one conversion step: `a` into the `Arc…` type, `r` into the arena type, `c` clone
+    fn convert(self, step: char) -> Option<Dv> {
+        Some(match (self, step) {
+            (d, 'c') => d.clone(),
+            (Dv::A(d), 'a') => Dv::A(d),
+            (Dv::R(d), 'a') => Dv::A(d.into()),
+            (Dv::L(d), 'a') => Dv::A(d.into()),
+            (Dv::A(d), 'r') => Dv::R(d.into()),
+            (Dv::R(d), 'r') => Dv::R(d),
+            (Dv::L(d), 'r') => Dv::L(d),
+            (Dv::RA(d), 'a') => Dv::RA(d),
+            (Dv::RR(d), 'a') => Dv::RA(d.into()),
+            (Dv::RA(d), 'r') => Dv::RR(d.into()),
+            (Dv::RR(d), 'r') => Dv::RR(d),
+            (Dv::LA(d), 'a') => Dv::LA(d),
+            (Dv::LR(d), 'a') => Dv::LA(d.into()),
+            (Dv::LA(d), 'r') => Dv::LR(d.into()),
+            (Dv::LR(d), 'r') => Dv::LR(d),
+            _ => return None,
+        })
+    }
+    /// a `read_untracked()` guard, kept by the caller
+    fn read_guard(&self) -> Box<dyn std::any::Any> {
+        match self {
+            Dv::A(d) => Box::new(d.read_untracked()),
+            Dv::R(d) => Box::new(d.read_untracked()),
+            Dv::L(d) => Box::new(d.read_untracked()),
+            Dv::RA(d) => Box::new(d.read_untracked()),
+            Dv::RR(d) => Box::new(d.read_untracked()),
+            _ => unreachable!(),
+        }
+    }
+    /// `by_ref().await`: the value and the guard
+    async fn by_ref_guard(self) -> (u32, Box<dyn std::any::Any>) {
+        match self {
+            Dv::A(d) => {
+                let g = d.by_ref().await;
+                (*g, Box::new(g))
+            }
+            Dv::R(d) => {
+                let g = d.by_ref().await;
+                (*g, Box::new(g))
+            }
+            Dv::L(d) => {
+                let g = d.by_ref().await;
+                (*g, Box::new(g))
+            }
+            Dv::RA(d) => {
+                let g = d.by_ref().await;
+                (*g, Box::new(g))
+            }
+            Dv::RR(d) => {
+                let g = d.by_ref().await;
+                (*g, Box::new(g))
+            }
+            _ => unreachable!(),
+        }
+    }
     async fn await_value(self, how: char) -> u32 {
         match (self, how) {
             (Dv::A(d), 'v') => d.await,
@@ -484,6 +551,10 @@ struct Live {
     /// handle for the load they were made in
     bread_handle_only: Vec<usize>,
     no_reader: bool,
+    /// guards the harness itself holds (`hold`); whether guards / manual writes were used in this case
+    sync_guards: Vec<Box<dyn std::any::Any>>,
+    used_guards: bool,
+    used_mset: bool,
     /// tasks spawned by synchronous reads under the boundary that have not been polled with loading off yet:
     /// each holds a task handle of the boundary until then, whatever becomes of its reader
     live_readers: usize,
@@ -526,6 +597,9 @@ impl Live {
             saw_dropped_upto: 0,
             bread_handle_only: vec![],
             no_reader: true,
+            sync_guards: vec![],
+            used_guards: false,
+            used_mset: false,
             live_readers: 0,
         }
     }
@@ -534,6 +608,8 @@ impl Live {
             return;
         }
         self.torn = true;
+        self.sync_guards.clear();
+        self.sh.lock().unwrap().releases.clear();
         sched::reset();
         self.dv = None;
         self.boundary = None;
@@ -684,6 +760,13 @@ impl Live {
         }
     }
 
+    /// the derived's task has taken the result of its fetch and has not stored it yet (it waits for the write lock,
+    /// or has been woken by the lock and not been polled): the lock is not readable, `blocking_read` would never return
+    fn write_waiting(&self, loading: bool) -> bool {
+        let g = self.sh.lock().unwrap();
+        self.used_guards && loading && g.fetches.last().map(|f| f.returned).unwrap_or(false)
+    }
+
     fn in_flight(&self) -> bool {
         let g = self.sh.lock().unwrap();
         g.fetches.last().map(|f| !f.returned && f.tx.as_ref().map(|t| !t.is_canceled()).unwrap_or(true)).unwrap_or(false)
@@ -714,8 +797,12 @@ impl Live {
     fn obs(&mut self) -> String {
         let dv = self.dv.clone().unwrap();
         let rl = sched::ready();
-        let val = dv.get_untracked();
+        // while a guard on the value is held it is not read synchronously: `blocking_read` never returns on this
+        // thread once the derived's task waits for the write lock
         let ld = dv.loading();
+        let guards = self.sync_guards.len() + self.sh.lock().unwrap().holder_guards;
+        let readable = guards == 0 && !self.write_waiting(ld);
+        let val = if readable { dv.get_untracked() } else { None };
         let g = self.sh.lock().unwrap();
         let nf = g.fetches.len();
         let fin = g.fetches.last().map(|f| f.inputs.clone()).unwrap_or_default();
@@ -734,7 +821,7 @@ impl Live {
         if g.fetches.first().map(|f| f.tx.as_ref().map(|t| t.is_canceled()).unwrap_or(false)).unwrap_or(false) {
             self.tags.insert("initial-fetch-dropped");
         }
-        let settled = rl.is_empty() && all_resolved;
+        let settled = rl.is_empty() && all_resolved && guards == 0;
         // ---- the boundary: its task list is non-empty while a load it has read from is in flight
         let bp = self.boundary.as_ref().map(|b| b.pending()).unwrap_or(0);
         let in_flight = !all_resolved;
@@ -759,11 +846,11 @@ impl Live {
                 None => self.cur_src.clone(),
             })),
         };
-        let verdict = if !allowed.contains(&val) {
+        let verdict = if readable && !allowed.contains(&val) {
             "fail fabricated"
         } else if rl.is_empty() && in_flight && !mset_during && covered && bp == 0 {
             "fail suspense-missed"
-        } else if rl.is_empty() && !in_flight && bp != 0 {
+        } else if rl.is_empty() && !in_flight && guards == 0 && bp != 0 {
             "fail suspense-stuck"
         } else if self.no_reader && bp > self.live_readers {
             // the boundary waits on behalf of a reader that does not exist any more
@@ -788,7 +875,7 @@ impl Live {
         format!(
             "rl={} val={} ld={} nf={} fin={} aw={} eff={} bp={} ## {}",
             join(rl.iter().map(|id| self.task_name(*id)).collect(), ","),
-            opt(val),
+            if readable { opt(val) } else { "~".to_string() },
             ld as u8,
             nf,
             join(fin.iter().map(|v| v.to_string()).collect(), "."),
@@ -813,7 +900,16 @@ impl Live {
             if self.dv.is_some() {
                 return BAD.into();
             }
-            let kind = match *kind {
+            let (kind, conv) = match kind.split_once('~') {
+                None => (*kind, ""),
+                Some((k, c)) => {
+                    if c.is_empty() || c.len() > 4 || !c.chars().all(|x| matches!(x, 'a' | 'r' | 'c')) || k.starts_with("once") {
+                        return BAD.into();
+                    }
+                    (k, c)
+                }
+            };
+            let kind = match kind {
                 "arc" => Kind::Arc,
                 "arena" => Kind::Arena,
                 "arc-unsync" => Kind::ArcUnsync,
@@ -861,6 +957,15 @@ impl Live {
                 },
             };
             self.configure(kind, vs, init, eff, via_memo, fx);
+            if !conv.is_empty() {
+                // every later op goes through the converted handle; the constructed one is dropped
+                let mut dv = self.dv.take().unwrap();
+                for step in conv.chars() {
+                    dv = dv.convert(step).unwrap();
+                }
+                self.dv = Some(dv);
+                self.tags.insert("converted-handle");
+            }
             return w.join(" ");
         }
         if self.dv.is_none() {
@@ -873,6 +978,25 @@ impl Live {
         // a local resource has no `Write` impl, no `ready()` and no `by_ref()`
         if self.kind.is_local() && matches!(w.as_slice(), ["mset", ..] | ["attach", "b"] | ["attach", "r"]) {
             return BAD.into();
+        }
+        // guards on the value: plain configurations only (see the rule text), never together with manual writes; no
+        // synchronous access while one is held
+        let guards_now = self.sync_guards.len() + self.sh.lock().unwrap().holder_guards;
+        let guards_ok = self.eff == EffKind::None
+            && !self.kind.is_once()
+            && !self.kind.is_local()
+            && self.fx.as_ref().map(|f| f.post.is_empty()).unwrap_or(true)
+            && !self.used_mset;
+        if matches!(w.as_slice(), ["attach", "h"] | ["hold"]) && !guards_ok {
+            return BAD.into();
+        }
+        if matches!(w.as_slice(), ["mset", ..]) && self.used_guards {
+            return BAD.into();
+        }
+        if (guards_now != 0 || self.write_waiting(dv.loading())) && matches!(w.as_slice(), ["bread"] | ["get"] | ["hold"]) {
+            // it could block the thread for good: the op is skipped
+            self.tags.insert("blocking-access-skipped");
+            return self.obs();
         }
         let clock = {
             let mut g = self.sh.lock().unwrap();
@@ -907,6 +1031,7 @@ impl Live {
                 }
                 self.sh.lock().unwrap().writers.push(W::Manual(v));
                 self.mset_at.push(clock);
+                self.used_mset = true;
                 dv.mset(v);
             }
             ["complete", f] => {
@@ -927,6 +1052,7 @@ impl Live {
                         "r" => 'r',
                         "b" => 'b',
                         "s" => 's',
+                        "h" => 'h',
                         _ => return BAD.into(),
                     }
                 } else {
@@ -956,6 +1082,23 @@ impl Live {
                             Ok(v) => sh.lock().unwrap().aw[i] = Some(v),
                             Err(_) => sh.lock().unwrap().aw_aborted[i] = true,
                         }
+                    });
+                } else if how == 'h' {
+                    self.used_guards = true;
+                    self.tags.insert("guard-held-across-await");
+                    self.spawned.push('h');
+                    let (tx, rx) = oneshot::channel::<()>();
+                    self.sh.lock().unwrap().releases.push(Some(tx));
+                    any_spawner::Executor::spawn_local(async move {
+                        let (v, guard) = dv.by_ref_guard().await;
+                        {
+                            let mut g = sh.lock().unwrap();
+                            g.aw[i] = Some(v);
+                            g.holder_guards += 1;
+                        }
+                        let _ = rx.await;
+                        drop(guard);
+                        sh.lock().unwrap().holder_guards -= 1;
                     });
                 } else {
                     self.spawned.push('a');
@@ -1008,6 +1151,19 @@ impl Live {
                     self.live_readers += 1;
                 }
                 self.bread_at.push(clock);
+            }
+            ["hold"] => {
+                self.used_guards = true;
+                self.tags.insert("guard-held-by-reader");
+                self.sync_guards.push(dv.read_guard());
+            }
+            ["release"] => {
+                self.sync_guards.clear();
+                let txs: Vec<oneshot::Sender<()>> =
+                    self.sh.lock().unwrap().releases.iter_mut().filter_map(|t| t.take()).collect();
+                for tx in txs {
+                    let _ = tx.send(());
+                }
             }
             ["bdrop"] => {
                 self.tags.insert(if self.in_flight() { "readers-dropped-during-fetch" } else { "readers-dropped" });
@@ -1322,6 +1478,120 @@ fn gen_readers(g: &mut Gen, thorough: bool) {
     }
 }
 
+/// readers that HOLD a guard on the value (`attach h`: a `by_ref()` guard kept across a further await; `hold`: a
+/// `read_untracked()` guard kept by the harness) while sources change, reloads complete and new awaiters of every
+/// future kind (`.await`, `by_ref()`, `ready()`) arrive; every case ends with `release` and a settle suffix
+fn gen_guards(g: &mut Gen, thorough: bool) {
+    let cfgs: Vec<String> = [
+        "cfg arc 0 - none", "cfg arena 0 - none", "cfg arc-unsync 0 7 none", "cfg arena-unsync 0 - none memo",
+        "cfg res 0 - none", "cfg res-arc 0 - none",
+    ]
+    .iter()
+    .map(|s| s.to_string())
+    .collect();
+    let finish = |l: &mut Vec<String>| {
+        settle(l, 2);
+        l.push("release".into());
+        settle(l, 3);
+    };
+    let run = |g: &mut Gen, pre: &str, alphabet: &[&str], len: usize, prefix: &str| {
+        let n = alphabet.len();
+        for code in 0..n.pow(len as u32) {
+            let mut c = code;
+            let mut l: Vec<String> = pre.split(';').map(|s| s.to_string()).collect();
+            let mut next_val = 1;
+            for _ in 0..len {
+                let a = alphabet[c % n];
+                c /= n;
+                if a == "set" {
+                    l.push(format!("set 0 {next_val}"));
+                    next_val += 1;
+                } else {
+                    l.push(a.to_string());
+                }
+            }
+            finish(&mut l);
+            g.case(prefix, &l);
+        }
+    };
+    let full = ["set", "complete last", "attach", "attach b", "attach r", "attach h", "hold", "release", "poll 0", "poll 1", "idle"];
+    let core = ["set", "complete last", "attach", "attach h", "hold", "release", "poll 0", "poll 1"];
+    for cfg in &cfgs {
+        for len in 1..=3 {
+            run(g, cfg, &full, len, &format!("g{len}-"));
+        }
+    }
+    for cfg in &cfgs[..2] {
+        run(g, cfg, &core, 4, "g4-");
+    }
+    // a reader already holds the value of the first load; then reloads and new awaiters
+    let after = ["set", "complete last", "attach", "attach b", "attach r", "release", "poll 0", "poll 1"];
+    for cfg in [&cfgs[0], &cfgs[1], &cfgs[4]] {
+        for pre in ["idle;complete last;idle;attach h;idle", "idle;complete last;idle;hold", "attach h;idle;complete last;idle"] {
+            run(g, &format!("{cfg};{pre}"), &after, if thorough { 5 } else { 4 }, "gh-");
+        }
+    }
+    if thorough {
+        for cfg in &cfgs[2..] {
+            run(g, cfg, &core, 4, "g4-");
+        }
+        run(g, &cfgs[0], &core, 5, "g5-");
+    }
+}
+
+/// every conversion between the `Arc…` and the arena handle of a resource / async derived (`From` / `into()`), and
+/// clones: reads, awaits, `refetch` and source writes THROUGH the converted handle
+fn gen_conversions(g: &mut Gen, thorough: bool) {
+    let res: Vec<String> = ["res~a", "res~ar", "res-arc~r", "res-arc~rc", "res-blocking~a", "res~c"]
+        .iter()
+        .enumerate()
+        .map(|(i, k)| format!("cfg {k} 0 - {}", ["none", "d"][i % 2]))
+        .collect();
+    let local: Vec<String> = ["local~a", "local-arc~r", "local~ar", "local-arc~rc", "local-arc~ra"]
+        .iter()
+        .enumerate()
+        .map(|(i, k)| format!("cfg {k} 0 - {}", ["none", "d"][i % 2]))
+        .collect();
+    let plain: Vec<String> = ["arc~r", "arena~a", "arena~ac", "arc-unsync~r", "arena-unsync~a", "arc~ra"]
+        .iter()
+        .enumerate()
+        .map(|(i, k)| format!("cfg {k} 0 - {}", ["none", "d"][i % 2]))
+        .collect();
+    let ralpha = ["set", "refetch", "complete last", "attach", "attach b", "bread", "poll 0", "idle"];
+    let lalpha = ["set", "refetch", "complete last", "attach", "bread", "poll 0", "poll 1", "idle"];
+    let palpha = ["set", "refetch", "mset 50", "complete last", "attach", "attach r", "poll 0", "idle"];
+    for (cfgs, alpha, p) in [(&res, &ralpha, "cr"), (&local, &lalpha, "cl"), (&plain, &palpha, "cp")] {
+        for len in 1..=3 {
+            gen_exhaustive_cfgs(g, len, alpha, cfgs, &format!("{p}{len}-"));
+        }
+        if thorough {
+            gen_exhaustive_cfgs(g, 4, alpha, cfgs, &format!("{p}4-"));
+        }
+        // after a first load
+        let loaded: Vec<String> = cfgs.iter().map(|c| format!("{c};idle;complete last;idle")).collect();
+        for cfgpre in &loaded {
+            let n = alpha.len();
+            for code in 0..n.pow(3) {
+                let mut c = code;
+                let mut l: Vec<String> = cfgpre.split(';').map(|s| s.to_string()).collect();
+                let mut next_val = 1;
+                for _ in 0..3 {
+                    let a = alpha[c % n];
+                    c /= n;
+                    if a == "set" {
+                        l.push(format!("set 0 {next_val}"));
+                        next_val += 1;
+                    } else {
+                        l.push(a.to_string());
+                    }
+                }
+                settle(&mut l, 3);
+                g.case(&format!("{p}l-"), &l);
+            }
+        }
+    }
+}
+
 /// fetchers with conditional / indexed reads placed in the closure body, before and after the first await, so
 /// that an input is first read in a second or later run: every write sequence that flips the flag / index and
 /// then writes the newly read input, interleaved with completions and polls
@@ -1545,6 +1815,8 @@ fn generate(seed: u64, n: usize, path: &str, tier: &str) -> std::io::Result<()> 
     gen_resources(&mut g, thorough);
     gen_dynamic(&mut g, thorough);
     gen_readers(&mut g, thorough);
+    gen_guards(&mut g, thorough);
+    gen_conversions(&mut g, thorough);
     if thorough {
         gen_exhaustive(&mut g, 4, &alphabet, &EFFS, "x4-");
         gen_exhaustive(&mut g, 5, &core, &EFFS, "y5-");
